@@ -45,7 +45,7 @@ def lexer_model(c, texts, cp):
         mstates += r.distinct
         fam.append({"chunks": a, "cfg": cfg, "states": r.distinct, "cases": d["cases"], "texts_replayed": d["texts"], "kinds_seen": d["kinds"]})
         for f in d["failures"]:
-            if f["kind"] == "model_mismatch":
+            if f["kind"] in ("model_mismatch", "table_mismatch"):
                 ndrift += 1
                 if len(c.drift) < 5:
                     c.drift.append({k: f[k] for k in ("text", "at", "model", "real")})
